@@ -97,6 +97,18 @@ def install():
     def done(self):
         STATE.count["Alg.done"] += 1
         d = orig_done(self)
+        # done() is a query: asked again straight away (a driver that logs "converged?" next
+        # to its loop condition does) it gives the same answer
+        try:
+            d2 = orig_done(self)
+        except BaseException:
+            d2 = d
+        if bool(d2) != bool(d):
+            for p_ in ("C12", "C13", "C14", "C15"):
+                STATE.event(p_, "done-not-a-query:" + type(self).__name__,
+                            "%s.done() returned %r and, asked again without an update in "
+                            "between, %r (iter=%r, max_iter=%r)" % (
+                                type(self).__name__, d, d2, self.iter, self.max_iter))
         for h in list(DONE_HOOKS):
             h(self, d)
         return d
